@@ -278,8 +278,12 @@ def run_rules(ctx, chk):
                 if s['k'] == 'assign' and any(e['k'] == 'deref' for e in s['p']['proj']):
                     t0 = b.local_ty(s['p']['l'])
                     if t0.get('k') == 'ptr':
+                        # a plain assignment through a raw pointer is a data write like `ptr.write(..)`: allowed exactly where
+                        # those are (the publish routine, on the record); classified with the other stores below
                         chk.saw(b)
-                        chk.ob('C02.S4', 'raw-place-store:%s' % b.path.split('::')[-1], False, b.where(i), 'direct store through a raw pointer')
+                        in_write = w.ok and b.path == w.body.path
+                        chk.ob('C02.S4', 'raw-place-store:%s' % b.path.split('::')[-1], in_write or common.only_reached_from(fb, b, {w.body.path} if w.ok else set()),
+                               b.where(i), 'direct store through a raw pointer in %s' % b.path.split('::')[-1])
     # every store is classified where its pointer's provenance is known (a helper storing through its own parameter is
     # classified in the functions it is inlined into) and attributed to the function whose body contains the call site
     for kind, site, owner, ev in mapping_store_sites(fb, shm_bodies):
